@@ -67,8 +67,64 @@ func isCallTo(in ssa.Instruction, objs ...*types.Func) bool {
 // callsIn lists calls in fn to any of objs.
 func callsIn(fn *ssa.Function, objs ...*types.Func) []ssa.Instruction {
 	var out []ssa.Instruction
-	for _, c := range an.CallsTo(fn, objs...) {
+	for _, c := range an.CallsToReach(fn, objs...) {
 		out = append(out, c)
+	}
+	return out
+}
+
+// loopsAround lists the loops (back edge from, header) - in fn or in a helper a query on fn enters - whose body
+// contains the instruction, directly or through the calls made in the body.
+func loopsAround(fn *ssa.Function, in ssa.Instruction) [][2]*ssa.BasicBlock {
+	var out [][2]*ssa.BasicBlock
+	for _, g := range an.InlineReach(fn) {
+		for _, e := range an.BackEdges(g) {
+			body := an.LoopBlocks(e[0], e[1])
+			if body[in.Block()] {
+				out = append(out, e)
+				continue
+			}
+			found := false
+			for b := range body {
+				for _, x := range b.Instrs {
+					k, ok := x.(*ssa.Call)
+					if !ok {
+						continue
+					}
+					var callee *ssa.Function
+					switch v := k.Call.Value.(type) {
+					case *ssa.Function:
+						callee = v
+					case *ssa.MakeClosure:
+						callee, _ = v.Fn.(*ssa.Function)
+					}
+					if callee == nil {
+						// a call through a parameter: any closure created in the functions entered may be meant
+						if _, isP := k.Call.Value.(*ssa.Parameter); isP && in.Parent() != g {
+							for _, cl := range an.InlineReach(fn) {
+								if cl.Parent() == nil {
+									continue
+								}
+								for _, h := range an.InlineReach(cl) {
+									if h == in.Parent() {
+										found = true
+									}
+								}
+							}
+						}
+						continue
+					}
+					for _, h := range an.InlineReach(callee) {
+						if h == in.Parent() {
+							found = true
+						}
+					}
+				}
+			}
+			if found {
+				out = append(out, e)
+			}
+		}
 	}
 	return out
 }
@@ -155,6 +211,12 @@ func names(fs []*ssa.Function) string {
 // inLoop, every path around the loop (header to back edge) passes a call to
 // each of must.
 func loopIterationsMustCall(c *an.Ctx, ruleID, rule string, fn *ssa.Function, must ...*types.Func) {
+	loopIterationsMustCallAt(c, ruleID, rule, fn, nil, must...)
+}
+
+// loopIterationsMustCallAt: as loopIterationsMustCall, but the loops examined are those around the calls to anchor
+// (the cursor advance of the iteration that matters), wherever the calls to must are.
+func loopIterationsMustCallAt(c *an.Ctx, ruleID, rule string, fn *ssa.Function, anchor *types.Func, must ...*types.Func) {
 	for _, m := range must {
 		calls := callsIn(fn, m)
 		key := fmt.Sprintf("%s|%s|%s", ruleID, an.FuncName(fn), m.Name())
@@ -168,17 +230,23 @@ func loopIterationsMustCall(c *an.Ctx, ruleID, rule string, fn *ssa.Function, mu
 			cut[k] = true
 		}
 		bad := ""
-		for _, b := range fn.Blocks {
-			for _, p := range b.Preds {
-				if !b.Dominates(p) {
+		seenLoop := map[[2]*ssa.BasicBlock]bool{}
+		around := calls
+		if anchor != nil {
+			around = callsIn(fn, anchor)
+		}
+		for _, k := range around {
+			for _, e := range loopsAround(fn, k) {
+				if seenLoop[e] {
 					continue
 				}
-				// back edge p -> b; does the loop contain a call at all?
+				seenLoop[e] = true
 				inLoop = true
+				p, b := e[0], e[1]
 				q := &an.Query{Fn: fn, Cut: cut, Start: b.Instrs[0]}
 				r := q.Run()
 				term := p.Instrs[len(p.Instrs)-1]
-				if r.Reaches(term) && loopContains(b, p, calls) {
+				if r.Reaches(term) {
 					bad = fmt.Sprintf("an iteration of the loop at %s can reach its back edge without calling %s", c.P.Rel(loopPos(b)), m.Name())
 				}
 			}
@@ -271,12 +339,8 @@ func sequenceOnSuccess(c *an.Ctx, id, rule string, fn *ssa.Function, steps []seq
 				for _, k := range calls[i] {
 					cut[k] = true
 				}
-				for _, e := range an.BackEdges(fn) {
-					body := an.LoopBlocks(e[0], e[1])
-					for _, nx := range calls[i+1] {
-						if !body[nx.Block()] {
-							continue
-						}
+				for _, nx := range calls[i+1] {
+					for _, e := range loopsAround(fn, nx) {
 						q := &an.Query{Fn: fn, Cut: cut, Start: e[1].Instrs[0]}
 						if q.Run().Reaches(nx) {
 							ok, why = false, fmt.Sprintf("within an iteration of the loop at %s, %s is reachable without passing %s", c.P.Rel(loopPos(e[1])), steps[i+1].name, s.name)
